@@ -239,6 +239,7 @@ func (vc *VC) callFunc(st *State, call *ast.CallExpr, callee *types.Func, sig *t
 		pkgPath = origin.Pkg().Path()
 	}
 	full := origin.FullName()
+	vc.checkCallAsserts(st, call, origin, args)
 	// 1. contract
 	if c := vc.w.contractFor(origin); c != nil && !c.Inline {
 		rs := vc.applyContract(st, call, c, origin, sig, recv, args)
@@ -281,6 +282,32 @@ func (vc *VC) callFunc(st *State, call *ast.CallExpr, callee *types.Func, sig *t
 	vc.havocAllHeap(st)
 	vc.havocCaptured(st, args)
 	return vc.havocResults(st, origin.Name(), sig)
+}
+
+// checkCallAsserts: `callsite F N requires e` clauses of the function under contract that name this call.
+func (vc *VC) checkCallAsserts(st *State, call *ast.CallExpr, origin *types.Func, args []*Value) {
+	if vc.contract == nil || vc.inlineDepth > 0 || len(vc.contract.CallAsserts) == 0 || vc.specMode > 0 {
+		return
+	}
+	ord, ok := vc.callIndex[call]
+	if !ok {
+		return
+	}
+	for _, ca := range vc.contract.CallAsserts {
+		if ca.Callee != origin.Name() || ca.Ord != ord {
+			continue
+		}
+		sc := vc.fnScope(st)
+		osig := origin.Type().(*types.Signature)
+		for i := 0; i < osig.Params().Len() && i < len(args); i++ {
+			if n := osig.Params().At(i).Name(); n != "" && n != "_" {
+				sc.names["_"+n] = args[i]
+			}
+		}
+		t := vc.evalSpecBoolIn(sc, ca.Clause.Expr)
+		vc.oblige(st, "callsite", fmt.Sprintf("%s%d.%s", ca.Callee, ca.Ord, ca.Clause.Label), "callsite "+ca.Callee+" "+fmt.Sprint(ca.Ord)+" requires "+ca.Clause.Text, call.Pos(), t)
+		vc.callAssertSeen[fmt.Sprintf("%s %d %s", ca.Callee, ca.Ord, ca.Clause.Label)] = true
+	}
 }
 
 // havocCaptured: a callee that received a closure may have run it: the closure-captured locals the closure assigns
